@@ -566,22 +566,23 @@ class HookWrittenVolume(Harness):
     """orders rewritten by a built-in event before acceptance: whatever the configuration, nothing without a
     positive volume is accepted or rests (a configuration may also be refused by setup())."""
     name = "HookWrittenVolume"
-    title = "OrderMistakeShock with a configured volume of 0 / below 0 / above 0 in a real run: accepted and resting volumes stay positive"
+    title = "OrderMistakeShock with a configured volume or lifetime of 0 / below 0 / above 0 in a real run: accepted volumes and lifetimes stay positive"
     what_symbolic = "activation order of the agents; the configured orderVolume and the trigger time are the case split"
     nontrivial_event = "an order written by the shock was accepted, or the configuration was refused"
     reach = ("nontrivial", "refused-configuration", "shock-order-accepted")
     bounds = {"quick": "one market, 2 steps, 2 agents (buyer, seller) quoting one unit each in both steps, shock at t=0 or 1 "
-                       "with orderVolume in {0, -3, 2}", "thorough": "same"}
+                       "with orderVolume in {0, -3, 2}, orderTimeLength in {2, 0, -3}", "thorough": "same"}
     assumptions = (rn.REDUCTION_NOTE,)
     agreement_runs = 2
 
     def cases(self, tier):
-        return [{"volume": v, "k": k} for v in (0, -3, 2) for k in (0, 1)]
+        return [{"volume": v, "k": k} for v in (0, -3, 2) for k in (0, 1)] + \
+               [{"volume": 2, "k": k, "ttl": t} for t in (0, -3) for k in (0, 1)]
 
     def run(self, g, case):
         sessions = [rn.session(0, 2, True, True, maxNormalOrders=2, events=["SHOCK"])]
         extra = {"SHOCK": {"class": "OrderMistakeShock", "target": "M", "triggerTime": case["k"], "priceChangeRate": 0.05,
-                           "orderVolume": case["volume"], "orderTimeLength": 2}}
+                           "orderVolume": case["volume"], "orderTimeLength": case.get("ttl", 2)}}
         st = rn.base_settings(n_agents=2, sessions=sessions, extra=extra)
         # quotes 10 off the market price (plain numbers: the shock's price is market price x 1.05, tick-rounded)
         menu = {"acts": ["limit"], "vol_fixed": 1, "price_rel": 10, "per_agent": {"0": {"side": "B"}, "1": {"side": "S"}}}
@@ -590,16 +591,24 @@ class HookWrittenVolume(Harness):
         except ValueError:
             g.note("refused-configuration")
             g.note("nontrivial")
-            g.require(case["volume"] <= 0, "C04.harness:valid-configuration-refused")
+            g.require(case["volume"] <= 0 or case.get("ttl", 2) <= 0, "C04.harness:valid-configuration-refused")
             return
         if case["volume"] > 0:
             g.note("refused-configuration")       # (reach bookkeeping: this case cannot be refused)
         ctx.runner._run()
+        accepted = {}
         for kind, aid, lg in ctx.events:
+            if kind == "log-write" and isinstance(lg, ExecutionLog):
+                for oid in (lg.buy_order_id, lg.sell_order_id):
+                    o = accepted.get(oid)
+                    if o is not None and o.ttl is not None:
+                        g.require(lg.time <= o.time + o.ttl, "C04.fill-after-ttl",
+                                  f"order {oid} accepted at t={o.time} with time-to-live {o.ttl} was filled at t={lg.time}")
             if kind == "submitted":
                 g.require(lg.volume > 0, "C04.accepted-order-without-positive-volume",
                           f"order {lg.order_id} accepted at t={lg.time} with volume {lg.volume}")
-                if bool(lg.volume == case["volume"]) or case["volume"] <= 0:
+                accepted[lg.order_id] = lg
+                if bool(lg.volume == case["volume"]) or case["volume"] <= 0 or case.get("ttl", 2) <= 0:
                     g.note("shock-order-accepted")
                     g.note("nontrivial")
         m = ctx.sim.markets[0]
